@@ -3,6 +3,7 @@
 from __future__ import annotations
 
 import ast
+import copy
 import re
 import struct
 from dataclasses import dataclass, field
@@ -337,6 +338,16 @@ class LenEval:
                 return (max(0, lo - a), max(0, hi - a))
             w = max(0, b - a)
             return (min(max(0, lo - a), w), min(max(0, hi - a), w))
+        if isinstance(e, ast.BinOp) and isinstance(e.op, ast.Add) and isinstance(e.left, ast.Subscript) and isinstance(e.left.slice, ast.Slice) \
+                and e.left.slice.lower is None and e.left.slice.step is None and e.left.slice.upper is not None:
+            # X[:K] + [c] * max(K - len(X), 0): cut to K, then filled up to K: exactly K elements
+            padk = self._pad_amount(e.right, norm(e.left.value), ci)
+            try:
+                cutk = repo.fold(e.left.slice.upper, ci=ci)
+            except NotConst:
+                cutk = None
+            if padk is not None and cutk == padk:
+                return (padk, padk)
         if isinstance(e, ast.BinOp) and isinstance(e.op, ast.Add):
             pad = self._pad_amount(e.right, norm(e.left), ci)
             if pad is not None:
@@ -462,11 +473,23 @@ class LenEval:
         init = ci.methods.get("__init__")
         if init is None:
             raise Unknown(f"{ci.qualname}.__init__")
+        from .packed import single_defs, resolve_names
+        idefs = single_defs(init)
         for n in walk_no_nested(init):
             if isinstance(n, ast.Call) and isinstance(n.func, ast.Attribute) and n.func.attr == "__init__" and n.args:
-                a = n.args[0]
+                a = resolve_names(n.args[0], idefs)
                 if isinstance(a, (ast.GeneratorExp, ast.ListComp)):
                     return self.of(a, ci, {})
+                # dict.fromkeys(map(KEY, range(a, b)), default): one entry per element of the range (keys distinct: KEY is an enum look-up)
+                if isinstance(a, ast.Call) and norm(a.func) == "dict.fromkeys" and a.args:
+                    k = a.args[0]
+                    while isinstance(k, ast.Call) and norm(k.func) in ("map",) and len(k.args) == 2:
+                        k = k.args[1]
+                    try:
+                        v = self.repo.fold(k, ci=ci)
+                        return (len(v), len(v))
+                    except Exception:
+                        return self.of(k, ci, {})
         raise Unknown(f"{ci.qualname} size")
 
     def of_function(self, fn: ast.FunctionDef, ci: ClassInfo) -> Interval:
@@ -485,6 +508,16 @@ class LenEval:
                 consts[n.targets[0].id] = n.value
         if consts:
             fn = inline._Rename(dict(consts)).visit(fn)
+        # once-bound locals that name an integer expression over lengths (`missing = K - len(values)`) are written at their uses
+        from .packed import single_defs as _sd1
+        int_locals = {k_: v_ for k_, v_ in _sd1(fn).items() if isinstance(v_, ast.BinOp) and isinstance(v_.op, (ast.Sub, ast.Add))
+                      and any(isinstance(x, ast.Call) and norm(x.func) == "len" for x in ast.walk(v_))}
+        if int_locals:
+            fn = copy.deepcopy(fn)
+            fn.body = [st for st in fn.body if not (isinstance(st, ast.Assign) and len(st.targets) == 1 and isinstance(st.targets[0], ast.Name)
+                                                    and st.targets[0].id in int_locals)]
+            fn = inline._Rename({k_: v_ for k_, v_ in int_locals.items()}).visit(fn)
+            ast.fix_missing_locations(fn)
         env: Dict[str, Interval] = {}
         result: Optional[Interval] = None
         for st in stmts_of(fn):
